@@ -327,3 +327,45 @@ PROPS["C13"] = {'assumptions': ['a receive error of the frame layer is terminal 
              'the verdict of the external ClassAd expression parser is a parameter of the model (index of the first rejected expression), read back from the '
              'real run',
              'Go runtime: allocation and stack figures are measured with runtime.MemStats in the engine']}
+
+PROPS["C17"] = {'assumptions': ["sync.Mutex / sync.RWMutex mutual exclusion, sync.Once, sync/atomic and the Go memory model's DRF-SC guarantee (a program whose conflicting "
+                 'accesses are ordered by locks behaves sequentially consistently)',
+                 'net.Conn Read/Write/Close may be called from different goroutines (net package contract); cipher.AEAD Seal/Open do not mutate the AEAD',
+                 'once the handshake is over the application does not reconfigure the stream (SetCryptoMode, SetEncrypted, SetSymmetricKey, SetConnection, '
+                 'ExportCryptoState) while traffic is in flight'],
+ 'engines': ['race'],
+ 'lean': 'CedarProps.C17',
+ 'level_note': 'Partial by nature: the theorems are lock discipline, atomic sections, configuration copies and field disjointness over a model; the runtime '
+               '(mutexes, maps, scheduler) is not modelled and the race detector is only the SEARCH for a failing schedule (its coverage is what the workloads '
+               'reach). Fact tables are syntactic: an access is attributed to the object expression it is written with (one object per type per method), '
+               "constructors are exempt (writes before publication), 'guarded write' means lexically under an if/for/switch. DebugDump / InvalidateExpired "
+               'read each entry under its own lock, so with concurrent RenewLease they are atomic per entry, not a snapshot across entries (the workloads keep '
+               "an entry's expiry class fixed so that histories stay linearizable). Established stream = digests frozen, keyed => encrypting, no secret toggle "
+               'open; toggling the crypto mode (SetCryptoMode(false) + PutSecret) while the other goroutine receives is outside the property.',
+ 'level_text': 'lockset_sound (Eraser soundness for any number of threads over mutexes with a shared mode), cache_discipline (every method of SessionCache / '
+               'SessionEntry in the regenerated fact table obeys the declared guard policy and releases its locks, hence no interleaving of any threads '
+               'calling any of them on any objects has a data race on any field), cache_atomic_sections (each cache method is one critical section), '
+               'globals_once, invalidate_wins + wf_reachable (in every linearization nothing returns an invalidated id until it is stored again), sweep_count, '
+               'config_not_written (every library NewAuthenticator call site hands over a copy; only declared writes through configurations), '
+               'handshakes_isolated (all interleavings, one copy per connection) with sharing_disturbs as the recorded reason, established_after_handshake, '
+               'directions_independent (every interleaving of send and receive operations on an established stream shows each goroutine exactly what it sees '
+               'running alone) with send_/recv_touches_*_side_only, footprint_covers_code + footprints_disjoint (regenerated field footprints of all exported '
+               'Stream methods within the declaration; the declaration keeps the directions apart): kernel-checked. Tied to the code by the fact tables '
+               '(tools/gen/facts_lock.go) and by the race engine: concurrent cache histories whose linearization the Lean cache replays, configuration-cell '
+               'schedules and the resume-vs-Invalidate schedule on real Authenticators, two-goroutine stream interleavings compared per direction with the '
+               'model and end to end with the peer, many simultaneous client connections sharing one SecurityConfig and one cache against one server over '
+               'loopback with maintenance sweeps, all under the race detector with GOMAXPROCS 1/2/4/8 and injected yields.',
+ 'oracle_engine': {'race': 'conc'},
+ 'race': True,
+ 'race_engines': ['race'],
+ 'technique': 'Lean 4 theorems (Eraser lockset soundness over a trace semantics with reader/writer mutexes, lifted from the regenerated per-method lock/access '
+              'table to arbitrary threads of method calls by decide + a composition lemma; the cache as a sequential object with an absence invariant; a '
+              'locality calculus showing every send operation factors through the send side and every receive operation through the receive side of an '
+              'established stream, hence any interleaving equals the sequential composition; syntactic footprint inclusion by decide) + correspondence and '
+              'randomized stress of the real code in child processes built with -race (the race detector as search, linearizability of concurrent histories '
+              'checked by exhaustive search and replayed by the model, post-conditions after quiescence)',
+ 'timeout': 3600,
+ 'trusted': ['Go runtime: mutex exclusion, sync.Once, atomics, DRF-SC; the race detector finds only races on schedules the workloads reach',
+             'the fact extractor tools/gen/facts_lock.go (typed-AST, syntactic) and the reviewed allow-list of methods on interface-typed Stream fields '
+             '(cipher.AEAD.Seal/Open, hash.Hash.Sum, net.Conn.* read-only; hash.Hash.Write writing)',
+             'expiry is a class (never / past / future = now -/+ 1h) fixed per entry object; symbolic AEAD/hash in the stream model (DESIGN §3)']}
